@@ -195,6 +195,9 @@ func runC05(e *Engine, g G, o RunOpt) RunInfo {
 					err = wc.Send(sc.Inbound[i].Raw)
 				}
 				sc.Inbound[i].End = wc.Pipe.Srv.TotalWritten - base
+				if wc.TextEnd > before {
+					sc.Inbound[i].TextEnd = wc.TextEnd - base
+				}
 				if err != nil || wc.Pipe.Srv.TotalWritten == before {
 					// never left the server (the connection was already gone): not part of what was received
 					sc.Inbound[i].End = 1 << 62
@@ -404,7 +407,17 @@ func runC05(e *Engine, g G, o RunOpt) RunInfo {
 			e.Violate("C05", "stanza-duplicated", "%s reached the handler %d times", k, got[k])
 		}
 	}
-	for k := range got {
+	// A WebSocket message whose text has arrived in full but whose (empty) final frame has not may be
+	// handed over or not: the property asks for neither.
+	for _, el := range sc.Inbound {
+		if el.TextEnd > 0 && base+el.TextEnd <= readAtEnd && base+el.End > readAtEnd && el.Stanza {
+			e.Probe("c05.websocket_text_complete_final_frame_missing")
+			if got[el.Kind+"/"+el.ID] == 1 {
+				wantSet[el.Kind+"/"+el.ID] = true
+			}
+		}
+	}
+	for _, k := range sortedKeys(got) {
 		if !wantSet[k] {
 			e.Violate("C05", "stanza-invented", "%s reached a handler but was not completely received", k)
 		}
